@@ -64,6 +64,7 @@ let () =
     | "codec" -> Model.run_codec oc
     | "map" -> Model.run_map oc
     | "tree" -> Model.run_ptree oc
+    | "rec" -> Model.run_rec oc
     | _ -> failwith ("unknown engine " ^ engine) in
   let out = Buffer.create 65536 in
   (try
